@@ -212,7 +212,9 @@ fn build_cases(groups: &[Group]) -> Vec<Case> {
             for (mode, tag) in [(Mode::Tokens, 0u32), (Mode::Run, 1u32)] {
                 let mut c = Case::new(e.text.clone(), tag, format!("{} {} var", gi, ei));
                 c.mode = mode;
-                c.no_ref = true;
+                // a line break that may end a statement: the reference front end says whether the
+                // text is still a program, and what it does then
+                c.no_ref = !(mode == Mode::Run && matches!(e.kind, EditKind::BreakVsSemicolon { .. }));
                 cases.push(c);
                 if let EditKind::BreakVsSemicolon { alt } = &e.kind {
                     let mut c = Case::new(alt.clone(), tag, format!("{} {} alt", gi, ei));
@@ -319,6 +321,29 @@ impl C09 {
                         }
                     }
                 };
+                if !vr.case.no_ref && !vr.r.budget_exceeded() && !vr.r.cyclic_touch {
+                    use crate::refm::eval::RefResult;
+                    let d = match &vr.r.result {
+                        RefResult::Front(fe) => {
+                            if vr.o.class != Class::Err || !vr.o.stdout.is_empty() {
+                                Some(format!("the text is not a program (reference front end: {:?}), but the run ended {:?} printing {:?}", fe, vr.o.class, vr.o.out_str()))
+                            } else {
+                                None
+                            }
+                        }
+                        _ => {
+                            if vr.o.stdout != vr.r.stdout || (vr.o.class == Class::Ok) != vr.r.is_ok() {
+                                Some(format!("the run printed {:?} and ended {:?} {}; the reference prints {:?} and {}", vr.o.out_str(), vr.o.class, vr.o.msg, String::from_utf8_lossy(&vr.r.stdout), if vr.r.is_ok() { "completes" } else { "reports an error" }))
+                            } else {
+                                None
+                            }
+                        }
+                    };
+                    if let Some(d) = d {
+                        ctx.report(&vr.case, Some(&vr.r), &vr.o, "line-break-ends-statement", format!("{} [{}, k={}]: {}", g.name, e.desc, k, d));
+                        continue;
+                    }
+                }
                 let edit = if e.kind == EditKind::Neutral && k == 1 { Some((e.at, e.removed, e.added)) } else { None };
                 if let Some((clause, detail)) = compare_pair(base_src, &e.text, edit, &base_toks, &base_run.o, &vtoks, &vr.o, what) {
                     let mut c = if clause == "tokens" { vt.case.clone() } else { vr.case.clone() };
